@@ -281,6 +281,40 @@ fn skeletons(tier: Tier) -> Vec<Vec<(usize, Option<usize>)>> {
     out
 }
 
+/// The generated scoping programs as plain workspaces (for the relational checks C06 / C07 /
+/// C10 / C20): single-statement skeletons x contexts x all name assignments.
+pub fn generated_workspaces(tier: Tier, light: bool) -> Vec<(String, Workspace)> {
+    let mut sks = skeletons(Tier::Quick);
+    sks.retain(|s| s.len() == 1);
+    let mut ctxs = contexts();
+    if light {
+        ctxs.retain(|c| c.params == 1);
+    }
+    if tier == Tier::Quick {
+        ctxs.retain(|c| c.params != 0);
+    }
+    let max_slots = tier.pick(7usize, 9usize);
+    let mut out = vec![];
+    for ctx in &ctxs {
+        for sk in &sks {
+            let slots = count_slots(*ctx, sk);
+            if slots > max_slots {
+                continue;
+            }
+            for assign in all_assignments(slots) {
+                let mut c = Ctx::new(assign.clone());
+                let Some(mods) = scopegen::program(*ctx, sk, &mut c) else { continue };
+                let b = build(&mods, Layout::Space);
+                if b.invalid {
+                    continue;
+                }
+                out.push((format!("gen:{ctx:?}|{sk:?}|{assign:?}"), workspace(&mods, &b.texts)));
+            }
+        }
+    }
+    out
+}
+
 fn count_slots(ctx: Context, sk: &[(usize, Option<usize>)]) -> usize {
     let mut c = Ctx::new(vec![]);
     let _ = scopegen::program(ctx, sk, &mut c);
